@@ -68,6 +68,7 @@ type SenderInterceptor struct {
 	lock          sync.Mutex
 	wg            sync.WaitGroup
 	recorder      *Recorder
+	recorderLock  sync.Mutex // every BindRTCPWriter starts a loop, all of them use the one recorder
 	interval      time.Duration
 	maxReportSize int64
 	packetChan    chan packet
@@ -164,7 +165,9 @@ func (s *SenderInterceptor) loop(writer interceptor.RTCPWriter) {
 		return
 	case pkt := <-s.packetChan:
 		s.log.Tracef("got first packet: %v", pkt)
+		s.recorderLock.Lock()
 		s.recorder.AddPacket(pkt.arrival, pkt.ssrc, pkt.sequenceNumber, pkt.ecn)
+		s.recorderLock.Unlock()
 	}
 
 	s.log.Trace("start loop")
@@ -178,7 +181,9 @@ func (s *SenderInterceptor) loop(writer interceptor.RTCPWriter) {
 
 		case pkt := <-s.packetChan:
 			s.log.Tracef("got packet: %v", pkt)
+			s.recorderLock.Lock()
 			s.recorder.AddPacket(pkt.arrival, pkt.ssrc, pkt.sequenceNumber, pkt.ecn)
+			s.recorderLock.Unlock()
 
 		case <-t.Ch():
 			now := s.now()
@@ -188,7 +193,9 @@ func (s *SenderInterceptor) loop(writer interceptor.RTCPWriter) {
 
 				continue
 			}
+			s.recorderLock.Lock()
 			pkts := s.recorder.BuildReport(now, int(s.maxReportSize))
+			s.recorderLock.Unlock()
 			if pkts == nil {
 				continue
 			}
